@@ -32,7 +32,7 @@ FILE_CHECKS = {
     "file_considerer.go": ["C06", "C09"],
     "simple_tree_verifier.go": ["C08"],
     "simple_tree_walker.go": ["C05", "C03"],
-    "simple_tree.go": ["C01", "C03", "C06", "C08", "C05", "C09", "C07"],
+    "simple_tree.go": ["C01", "C02", "C03", "C06", "C08", "C05", "C09", "C07", "C14", "C13"],
     "tree_handler_programmably.go": ["C03", "C13", "C05"],
     "tree_handler.go": ["C03", "C01", "C06"],
     "tree.go": ["C10", "C01"],
@@ -159,6 +159,7 @@ def main():
     ap.add_argument("--max", type=int, default=100000)
     ap.add_argument("--seed", type=int, default=1)
     ap.add_argument("--per-file", type=int, default=40)
+    ap.add_argument("--retest", default="", help="results.tsv of an earlier run: re-test its SURVIVED mutants with all 17 checks")
     args = ap.parse_args()
     repo, verif = setup(args.scratch)
     env = goenv()
@@ -177,6 +178,19 @@ def main():
     rnd.shuffle(todo)
     todo = todo[:args.max]
     res_path = os.path.join(args.scratch, "results.tsv")
+    if args.retest:
+        todo = []
+        for l in open(args.retest):
+            p = l.rstrip("\n").split("\t")
+            if len(p) >= 7 and p[3] == "SURVIVED":
+                lines = open(os.path.join(repo, p[0])).read().split("\n")
+                i = int(p[1]) - 1
+                indent = lines[i][:len(lines[i]) - len(lines[i].lstrip())]
+                if lines[i].strip() == p[5]:
+                    todo.append((p[0], i, p[2], indent + p[6]))
+        for k in FILE_CHECKS:
+            FILE_CHECKS[k] = ["C%02d" % n for n in range(1, 18)]
+        res_path = os.path.join(args.scratch, "retest.tsv")
     done = set()
     if os.path.exists(res_path):
         for l in open(res_path):
